@@ -137,7 +137,8 @@ def check_message(ctx, dec, q, names, b, spec, edition, sec2):
     if spec.get('origin') == 'core' or ctx.rng.random() < 0.05:
         cli_md_query(ctx, b, spec, secs, names, '%d' % (ctx.counters.get('cli_query_runs', 0)))
     # ---- malformed expressions
-    for expr in MALFORMED:
+    # (each one is submitted twice in a row: the long-lived querent must refuse it the second time as well)
+    for expr in [e_ for e_ in MALFORMED for _ in (0, 1)]:
         ctx.evaluated((len(b), 'malformed', expr), True)
         try:
             r = q.query(m, expr)
